@@ -11,10 +11,12 @@ import (
 	"strings"
 	"time"
 
+	sdkmath "cosmossdk.io/math"
 	sdk "github.com/cosmos/cosmos-sdk/types"
 	"github.com/ethereum/go-ethereum/common"
 	"github.com/ethereum/go-ethereum/core"
 	"github.com/ethereum/go-ethereum/eth/tracers/logger"
+	evmtypes "github.com/evmos/ethermint/x/evm/types"
 
 	"github.com/functionx/fx-core/v8/contract"
 	cctypes "github.com/functionx/fx-core/v8/x/crosschain/types"
@@ -38,6 +40,7 @@ type env struct {
 	m     world.Actor
 	val   sdk.ValAddress
 	claim uint64 // pending executable claim nonce
+	late  uint64 // parked result claim of an outgoing bridge call that was already refunded for timeout: executing it fails in the keeper after the parked claim was consumed
 	usdt  scen.Token // a module-owned pair; the user holds 50 as ERC-20
 }
 
@@ -63,6 +66,25 @@ func setup() *env {
 	nonces["eth"]++
 	e.claim = nonces["eth"]
 	scen.Observe(w, ctx, "eth", os["eth"], scen.SendToFxClaim("eth", e.claim, 1000, fx.Ext["eth"], 5, scen.ExtAddr("eth", "depositor"), e.m.Acc(), "", ""))
+	// an outgoing bridge call of m times out (an event at its timeout height is observed: refunded and deleted), then its
+	// late result is observed and parked
+	w.MustDeliver(ctx, &cctypes.MsgBridgeCall{ChainName: "eth", Sender: e.m.Bech(), Refund: e.m.Bech(), Coins: sdk.NewCoins(sdk.NewInt64Coin("FX", 2)), To: scen.ExtAddr("eth", "callee"), Data: "01", Value: sdkmath.ZeroInt()})
+	k := scen.Keeper(w, "eth")
+	oc, ok := k.GetOutgoingBridgeCallByNonce(ctx, 1)
+	if !ok {
+		panic("c09 set-up: outgoing bridge call missing")
+	}
+	nonces["eth"]++
+	scen.Observe(w, ctx, "eth", os["eth"], scen.SendToFxClaim("eth", nonces["eth"], oc.Timeout+1, fx.Ext["eth"], 1, scen.ExtAddr("eth", "depositor"), e.m.Acc(), "", ""))
+	if _, still := k.GetOutgoingBridgeCallByNonce(ctx, 1); still {
+		panic("c09 set-up: bridge call not refunded at its timeout")
+	}
+	nonces["eth"]++
+	e.late = nonces["eth"]
+	scen.Observe(w, ctx, "eth", os["eth"], &cctypes.MsgBridgeCallResultClaim{ChainName: "eth", EventNonce: e.late, BlockHeight: oc.Timeout + 2, Nonce: oc.Nonce, TxOrigin: scen.ExtAddr("eth", "origin"), Success: true})
+	if _, parked := k.GetPendingExecuteClaim(ctx, e.late); !parked {
+		panic("c09 set-up: late result not parked")
+	}
 	next, r := w.NextBlock(ctx, 5*time.Second)
 	if r.Err != nil || r.Panic != nil {
 		panic("block")
@@ -83,6 +105,15 @@ type method struct {
 	tgt  func(e *env, self common.Address) call
 	// outside: set-up performed by other accounts once the program's address is known
 	outside func(e *env, ctx sdk.Context, self common.Address)
+}
+
+// failing targets: "fails" = the target fails even with ample gas after its native action has already written (error
+// return); "aborts" = it fails by a panic inside the native action (the whole transaction is aborted unless something
+// recovers on the way up, in which case it is an ordinary failed call)
+var failing = map[string]string{
+	"transferFromShares(more-than-owned)":   "fails",
+	"bridgeCall(erc20,second-pull-refused)": "fails",
+	"executeClaim(result-of-refunded-call)": "aborts",
 }
 
 func st(name string, args ...interface{}) call {
@@ -167,14 +198,47 @@ func methods() []method {
 		{"bridgeCall(erc20)", approve(2), func(e *env, self common.Address) call {
 			return cc(nil, "bridgeCall", "eth", self, []common.Address{e.usdt.ERC20}, []*big.Int{big.NewInt(2)}, common.HexToAddress(scen.ExtAddr("eth", "callee")), []byte{1}, big.NewInt(0), []byte{})
 		}, fundERC20},
+		// ---- targets that fail after their native action has written something
+		// the allowance (500) covers the move, the owner's delegation (100) does not: the allowance is spent first
+		{"transferFromShares(more-than-owned)", none, func(e *env, _ common.Address) call {
+			return st("transferFromShares", e.val.String(), e.owner.Hex(), e.m.Hex(), e18(200))
+		}, func(e *env, ctx sdk.Context, self common.Address) {
+			if r := e.w.CallABI(ctx, e.owner, fxstakingtypes.GetAddress(), fxstakingtypes.GetABI(), nil, 3_000_000, "approveShares", e.val.String(), self, e18(500)); !r.Success() {
+				panic(r.String())
+			}
+		}},
+		// two conversions of the same token; the caller's balance (program: 10, user: 50) covers only the first
+		{"bridgeCall(erc20,second-pull-refused)", none, func(e *env, self common.Address) call {
+			amt := big.NewInt(6)
+			if self == e.user.Hex() {
+				amt = big.NewInt(30)
+			}
+			return cc(nil, "bridgeCall", "eth", self, []common.Address{e.usdt.ERC20, e.usdt.ERC20}, []*big.Int{amt, amt}, common.HexToAddress(scen.ExtAddr("eth", "callee")), []byte{1}, big.NewInt(0), []byte{})
+		}, fundERC20},
+		// the parked claim is consumed, then the keeper does not find the bridge call it settles
+		{"executeClaim(result-of-refunded-call)", none, func(e *env, _ common.Address) call {
+			return cc(nil, "executeClaim", "eth", new(big.Int).SetUint64(e.late))
+		}, nil},
 	}
 }
 
-var shapes = []string{"direct", "kept", "outer-revert", "caught-failure", "second-call-fails", "inner-frame-reverts", "inner-frame-kept"}
+var shapes = []string{"direct", "kept", "outer-revert", "caught-failure", "caught-with-ample-gas", "second-call-fails", "inner-frame-reverts", "inner-frame-kept"}
 
 // expectation per shape: does the target's native effect survive a successful transaction; can the tx succeed at all
-var targetKept = map[string]bool{"direct": true, "kept": true, "inner-frame-kept": true}
-var txCanSucceed = map[string]bool{"direct": true, "kept": true, "caught-failure": true, "inner-frame-reverts": true, "inner-frame-kept": true}
+var targetKeptOK = map[string]bool{"direct": true, "kept": true, "caught-with-ample-gas": true, "inner-frame-kept": true}
+var txCanSucceedOK = map[string]bool{"direct": true, "kept": true, "caught-failure": true, "caught-with-ample-gas": true, "inner-frame-reverts": true, "inner-frame-kept": true}
+
+// a failing target: its frame is never kept; the transaction survives only where the failure is caught
+var txCanSucceedFailing = map[string]bool{"caught-failure": true, "caught-with-ample-gas": true, "inner-frame-reverts": true}
+
+func targetKept(m method, shape string) bool { return failing[m.name] == "" && targetKeptOK[shape] }
+
+func txCanSucceed(m method, shape string) bool {
+	if failing[m.name] != "" {
+		return txCanSucceedFailing[shape]
+	}
+	return txCanSucceedOK[shape]
+}
 
 func act(c call, after evmasm.After, gas uint64) evmasm.Action {
 	return evmasm.Action{Call: &evmasm.CallAction{Kind: evmasm.CALL, To: c.to, Data: c.data, Value: c.value, After: after, RecordSlot: 2, Gas: gas}}
@@ -220,6 +284,10 @@ func build(e *env, ctx sdk.Context, m method, shape string, withTarget bool) (en
 	case "outer-revert":
 		self = predict()
 		entry = mk(body(self, evmasm.Program{Actions: append(tgt(self, evmasm.Require, 0), evmasm.Mark(9, 1)), Revert: true}))
+	case "caught-with-ample-gas":
+		self = predict()
+		// the target gets all the gas there is; whatever it answers is swallowed and execution continues
+		entry = mk(body(self, evmasm.Program{Actions: append(tgt(self, evmasm.Ignore, 0), evmasm.Mark(9, 1))}))
 	case "caught-failure":
 		self = predict()
 		// the target is given far too little gas: it fails, the failure is swallowed, execution continues
@@ -309,7 +377,14 @@ func run(thorough bool) func(shard, shards int, deadline time.Time) *explore.Res
 				tr := logger.NewStructLogger(&logger.Config{DisableStorage: true, DisableStack: true, EnableMemory: false})
 				tctx := world.Branch(base)
 				msg := &core.Message{From: e.user.Hex(), To: &entry, Nonce: w.App.EvmKeeper.GetNonce(tctx, e.user.Hex()), Value: orZero(value), GasLimit: ample, GasPrice: big.NewInt(0), GasFeeCap: big.NewInt(0), GasTipCap: big.NewInt(0), Data: data}
-				tresp, terr := w.App.EvmKeeper.ApplyMessage(tctx, msg, tr, true)
+				tresp, terr := func() (resp *evmtypes.MsgEthereumTxResponse, err error) {
+					defer func() {
+						if r := recover(); r != nil { // an aborting target: the trace ends where the abort happened
+							resp, err = &evmtypes.MsgEthereumTxResponse{GasUsed: 300_000}, nil
+						}
+					}()
+					return w.App.EvmKeeper.ApplyMessage(tctx, msg, tr, true)
+				}()
 				if terr != nil {
 					viol("C09/harness/trace-failed/"+name, "harness", terr.Error(), name)
 					continue
@@ -350,14 +425,22 @@ func run(thorough bool) func(shard, shards int, deadline time.Time) *explore.Res
 				refDump := w.Dump(rctx)
 				refOK := rr.Success()
 				res.Outcomes[fmt.Sprintf("%s/ample-success=%v", shape, refOK)]++
-				if refOK != txCanSucceed[shape] {
+				aborts := failing[m.name] == "aborts"
+				if aborts && !rr.Kept() {
+					// the abort travelled all the way up: nothing of the transaction is kept (checked for every gas limit below)
+					res.Counters["aborted-transactions"]++
+				} else if aborts && shape != "caught-failure" {
+					// something recovered the abort: from here on it is an ordinary failed call and is judged like one
+					res.Counters["recovered-aborts"]++
+				}
+				if !(aborts && shape != "caught-failure") && refOK != txCanSucceed(m, shape) {
 					viol("C09/harness/unexpected-reference-outcome/"+name, "harness", fmt.Sprintf("%s with ample gas: %s", name, rr), name)
 					continue
 				}
 				refNative := native(refDump)
 				changed := len(world.DiffDumps(preNative, refNative)) > 0
 				// (c) shapes that drop the target: the native stores equal those of the same program without the target
-				if refOK && !targetKept[shape] && shape != "direct" {
+				if refOK && !targetKept(m, shape) && shape != "direct" {
 					alt := world.Branch(e.ctx)
 					aentry, _ := build(e, alt, m, shape, false)
 					ar := w.EthTx(alt, e.user, &aentry, nil, nil, ample)
@@ -367,7 +450,7 @@ func run(thorough bool) func(shard, shards int, deadline time.Time) *explore.Res
 						viol(fmt.Sprintf("C09/effects-of-dropped-frame-survive/%s/%s", shape, m.name), "dropped-frame-leaves-no-native-effect", fmt.Sprintf("%s: the transaction succeeded, the frame holding %s was reverted/caught, yet the native stores differ from the run without that call: %v", name, m.name, d[:min(5, len(d))]), name)
 					}
 				}
-				if refOK && targetKept[shape] && !changed {
+				if refOK && targetKept(m, shape) && !changed {
 					viol("C09/harness/kept-call-has-no-native-effect/"+name, "harness", "vacuous case", name)
 				}
 				if !refOK && changed {
